@@ -358,6 +358,13 @@ def run(prog: Program, col: Collector, tier: str, refs: Optional[Refs] = None, c
     from . import algebra as _alg
     _alg.r_nested_fusion_same_red_op(prog, col, refs, cat, "R05.11")
 
+    # ---------------------------------------------------------------- R05.12 / R05.13 (shared with C04: R04.19, R04.17)
+    from . import c04 as _c04
+    col.rule("R05.12", "a renaming set that is filtered by a test on itself is filtered to a fixpoint", floor=0)
+    _c04._self_referential_filter(prog, col, refs, cat)
+    col.rule("R05.13", "a rebuilt node is substituted only at the names that are fresh in the node itself, not in what it evaluated to", floor=1)
+    _c04._fresh_of_original_node(prog, col, refs, cat)
+
     # ---------------------------------------------------------------- R05.2
     col.rule("R05.2", "every constructed term is mangled: all bound names, fresh names, rebuilt through reflect", floor=6)
     _mangle(prog, col, refs)
